@@ -24,6 +24,10 @@ class LoopCtx:
         v = self.ctx.lookup(name)
         return v.t if isinstance(v, S) else v
 
+    @property
+    def st(self):
+        return self.cur
+
 
 def loop_spec(eng, node):
     k = getattr(node, '_pyvc_loop', None)
